@@ -8,7 +8,9 @@ from ..core import COMMON_DIMENSIONS
 PROP = "C05"
 # depth of the exhaustive exploration per number of enabled variants
 SIZES = dict(quick=dict(depth=lambda n: 3 if n <= 4 else 2 if n <= 20 else 1, steps=150, mcN=5, mcH=2, W=4),
-             thorough=dict(depth=lambda n: 5 if n <= 2 else 4 if n <= 5 else 3 if n <= 20 else 1, steps=600, mcN=7, mcH=3, W=5))
+             # (the alphabet has 2N + 24 operations per state since the far-beyond arguments were added: depth 3 over every N <= 8 is ~1.3 million
+             # calls in two profiles; the deeper trees of earlier versions no longer fit into memory and add no new cursor pair)
+             thorough=dict(depth=lambda n: 3 if n <= 8 else 2 if n <= 20 else 1, steps=600, mcN=7, mcH=3, W=5))
 
 
 def canary(grp):
@@ -108,7 +110,7 @@ def run(tier, seed, rep):
     rep.cov["big_argument_calls"] = sum(1 for e in calls if e.get("big"))
     rep.cov["exhaustive"] = True
     rep.cov["rule"] = ("enums with N = 0..8 enabled variants (with and without interleaved disabled ones, all kinds, generic parameters), "
-                       "dev and release profiles; EVERY operation sequence up to depth D (quick: 3 for N<=4 else 2; thorough: 5/4/3) over "
+                       "dev and release profiles; EVERY operation sequence up to depth D (quick: 3 for N<=4 else 2; thorough: 3 for N<=8 else 2) over "
                        "{next, next_back, nth(k), nth_back(k)} with k in 0..N+1 and usize::MAX-1, usize::MAX, each edge applied to a clone of its "
                        "parent state, plus seeded random histories with 4 live handles, explicit clone/drop and skip/step_by/rev/take; after "
                        "every call: result, len(), size_hint(), clone().collect(); distinct = distinct (definition, profile, parent, call, "
